@@ -1392,6 +1392,13 @@ impl fmt::Display for XmlDeclarationAttDefault {
                 for v in values.as_slice() {
                     value.push_str(&format!("{}", v));
                 }
+
+                if value.contains('"') && value.contains('\'') {
+                    // Neither quote can delimit the value as it is (its items can be edited
+                    // through an attribute that was supplied from this default).
+                    value = value.replace('"', "&quot;");
+                }
+
                 write!(f, "{}", escape(value.as_str()))
             }
         }
